@@ -1,9 +1,21 @@
 #!/bin/bash
 # Build the Lean project from files on disk only (offline); regenerate the translator outputs first.
-set -e
+# Only the modules of properties claimed in MANIFEST.json are built here (each check rebuilds what it needs anyway).
 cd "$(dirname "$0")"
 export PYTHONPATH="$PWD" PYTHONDONTWRITEBYTECODE=1
 /venv/bin/python -W ignore -m harness.generate_all 2>&1 | grep -v -i conda || true
+targets=$(/venv/bin/python - <<'PY'
+import json, os
+man = json.load(open("MANIFEST.json"))
+t = []
+for c in man["checks"]:
+    p = c["property_id"]
+    t.append(f"LinOp.Properties.{p}")
+    if os.path.exists(f"lean/LinOp/{p}/Driver.lean"):
+        t.append(f"LinOp.{p}.Driver")
+print(" ".join(t))
+PY
+)
 cd lean
-lake build 2>&1 | tail -5
+lake build $targets 2>&1 | tail -5
 echo "setup done"
